@@ -171,6 +171,31 @@ func checkC16(ix *index, add addFn) {
 				add("closed", fmt.Sprintf("conn %d: Err() = %q later differs from the error reported with Closed (%q)", k, r.Err, closedErr), nil)
 			}
 		}
+		// what Err() says must agree with what the last terminal callback said, and
+		// a closed Done() without Disconnect means an error is on record
+		lastTermErr, lastTermAt := "", -1
+		for _, i := range states {
+			if ix.tr[i].S == "Closed" || ix.tr[i].S == "Disconnected" {
+				lastTermErr, lastTermAt = ix.tr[i].Err, i
+			}
+		}
+		for i := range ix.tr {
+			if i > ix.end() {
+				break
+			}
+			r := &ix.tr[i]
+			if r.Kind != "sample" || r.Conn != k {
+				continue
+			}
+			if lastTermAt >= 0 && i > lastTermAt && lastTermErr == "" && r.Err != "" {
+				add("err-consistent", fmt.Sprintf("conn %d: the state callback reported the end of the connection with a nil error, later Err() = %q", k, r.Err), nil)
+				break
+			}
+			if r.B && r.Err == "" && disc < 0 {
+				add("done-err", fmt.Sprintf("conn %d: Done() is closed at t=%dns, Disconnect was not called, and Err() is still nil", k, r.T), nil)
+				break
+			}
+		}
 		if ix.complete && end >= 0 && !lastDone {
 			add("done", fmt.Sprintf("conn %d ended but Done() was not closed when the run was judged", k), nil)
 		}
